@@ -107,7 +107,7 @@ func c01RunSpec(spec *TASpec, scratch string) *C01RunResult {
 	} else {
 		res.Program = prog
 	}
-	if res.Program != "" && !strings.Contains(spec.Src, "disabled") {
+	if res.Program != "" {
 		if cg, err := c01CallGraph(spec.Src, spec.MroPaths); err == nil {
 			res.CallGraph = cg
 		} else {
